@@ -77,6 +77,13 @@ func GenConcurrent(t *testing.T, r *rand.Rand, prop, tier string, _ *atomic.Int6
 		if r.Intn(3) == 0 {
 			op.End, op.Step = op.Start, 0
 		}
+		if r.Intn(6) == 0 {
+			// one client is cancelled or closed by a second goroutine at some point (scheduler
+			// step under the simulator, number of reschedules when free-running): the others
+			// must not notice, and Cancel/Close must be safe next to Exec and the caller's Close
+			op.ClientCancelStep = 1 + r.Intn(400)
+			op.ClientClose = r.Intn(3) == 0
+		}
 		c.Ops = append(c.Ops, op)
 	}
 	if RaceMode {
@@ -96,6 +103,7 @@ func concPre(x *X) {
 			continue
 		}
 		st, eng, _ := buildEngine(c, op, c.Store)
+		op.ClientCancelStep, op.ClientClose = 0, false
 		o := RunQuery(QueryRun{Op: op, Eng: eng, Store: st, Sim: x.S, Acct: st, Contract: false})
 		x.R.Evals++
 		x.S.Drain()
@@ -108,6 +116,14 @@ func compareSolo(x *X, i int, op Op, o, solo *Outcome, data []store.Series) {
 	if o.ClientPanic != "" {
 		x.Viol("C13", "client-panic", "client-panic:"+firstFrame(o.ClientPanic), desc+": "+o.ClientPanic)
 		return
+	}
+	if o.CancelPanic != "" {
+		x.Viol("C13", "client-panic", "cancel-panic:"+firstFrame(o.CancelPanic), desc+": panic inside Cancel()/Close() called from a second goroutine: "+o.CancelPanic)
+		return
+	}
+	if op.ClientCancelStep > 0 && o.Canceled {
+		x.Probe("client-cancelled")
+		return // its own cancellation; the other clients are compared as usual
 	}
 	if o.Created != solo.Created || (o.Err != "") != (solo.Err != "") {
 		x.Viol("C12", "isolation", "outcome-differs|"+Shape(op.Q), fmt.Sprintf("%s: concurrently %s, alone %s", desc, o.Brief(), solo.Brief()))
@@ -142,7 +158,7 @@ func concMain(x *X) {
 	for i := range c.Ops {
 		i := i
 		x.S.Go("client", i, func() {
-			outs[i] = RunQuery(QueryRun{Op: c.Ops[i], Eng: eng, Store: st, Sim: x.S, Contract: false})
+			outs[i] = RunQuery(QueryRun{Op: c.Ops[i], Eng: eng, Store: st, Sim: x.S, Contract: false, Client: i})
 			done <- i
 		})
 	}
@@ -198,6 +214,7 @@ func raceMain(x *X) {
 			continue
 		}
 		op.Shards = 0
+		op.ClientCancelStep, op.ClientClose = 0, false
 		st, eng, _ := buildEngine(c, op, c.Store)
 		solos[k] = RunQuery(QueryRun{Op: op, Eng: eng, Store: st})
 	}
